@@ -190,6 +190,9 @@ fn iterate<D: TestDriver<Error = DrvErr>>(
     };
     let mut extra = cfg.after_none;
     let mut nrows = 0;
+    // the iteration is continued past error items (an iterator of Results invites that), but not for ever:
+    // a failing while-condition yields the same error again and again
+    let mut nerrs = 0;
     while nrows < cfg.max_rows {
         let item = guarded(|| it.next());
         if matches!(item, Ok(Some(Ok(_)))) {
@@ -217,11 +220,13 @@ fn iterate<D: TestDriver<Error = DrvErr>>(
                 json!({"k":"none"})
             }
             Ok(Some(Err(IterationError::Driver(DrvErr(id))))) => {
-                stop = true;
+                nerrs += 1;
+                stop = nerrs >= 3;
                 json!({"k":"err","class":"driver","id":id})
             }
             Ok(Some(Err(IterationError::Runtime(e)))) => {
-                stop = true;
+                nerrs += 1;
+                stop = nerrs >= 3;
                 json!({"k":"err","class":"runtime","id":0,"msg":format!("{e}")})
             }
             Ok(Some(Ok(row))) => row_to_spec(row),
